@@ -2,7 +2,11 @@
 
 package table
 
-import "github.com/lni/dragonboat/v4"
+import (
+	"time"
+
+	"github.com/lni/dragonboat/v4"
+)
 
 // Exports for the verification harness in /verif (build tag "verif"); no behaviour.
 
@@ -31,3 +35,9 @@ func VerifDiffTables(tables map[string]Table, raftInfo []dragonboat.ShardInfo) (
 }
 
 func VerifValidTableName(name string) bool { return validTableName(name) }
+
+// VerifSetIntervals shortens the reconcile / cleanup periods (30 s in production) so that a restarted
+// engine brings its tables up quickly; to be called before Start.
+func (m *Manager) VerifSetIntervals(reconcile, cleanup time.Duration) {
+	m.reconcileInterval, m.cleanupInterval = reconcile, cleanup
+}
